@@ -205,8 +205,16 @@ RunClauses ==
         [] Run.op = "saveload" -> On("C16", C16_H(Cfg, Run, Pre))
         [] OTHER -> <<>>)
 
+\* the recorded state has the shape (numbers of tasks, resources, components) of the model the
+\* specification expects for this run; otherwise nothing else can be evaluated on it
+ShapeOK(s) ==
+  /\ Len(s.ts) = Len(RunCfg.tasks) /\ Len(s.ws) = Len(RunCfg.workers) /\ Len(s.fs) = Len(RunCfg.facs)
+  /\ Len(s.cs) = Len(RunCfg.comps) /\ Len(s.pc) = Len(RunCfg.wps)
 Judge ==
   IF l = 0 THEN CheckAll(RunClauses)
+  ELSE IF Ev(l).ph \in {"bw_enter", "bw_exit"} THEN Check("L2." \o Ev(l).ph, Conforms)
+  ELSE IF ~ShapeOK(Ev(l).st) \/ (l > 1 /\ Ev(l - 1).ph # "bw_enter" /\ ~ShapeOK(Ev(l - 1).st))
+  THEN Check("L2.shape", FALSE)
   ELSE /\ Check("L2." \o Ev(l).ph, Conforms)
        /\ Check("X.exact", Ev(l).inexact = <<>>)
        /\ (IsSim => CheckAll(StateClauses(Ev(l).ph, Ev(l).st)))
